@@ -625,7 +625,7 @@ class C03(Prop):
         "samples are modelled as integers (see C01); NaN samples as `none`",
         "pandas Series -> ndarray conversion is glue, covered by the oracle on four index types (also in chunks and with NaN samples)",
         "NaN samples: four-point and FKM detectors are modelled (Proofs/C03Nan.lean); the three-point detector on NaN samples and the NaN warning are covered by the oracle only",
-        "affine maps are proved for integer a, b (a > 0; a != 0 for the index statement); the oracle uses integer maps and exact powers of two",
+        "affine maps x -> a x + b are proved for integer a, b: fourPoint_affine and threePoint_affine_index (values, indices, residual index) hold for every a != 0, findTurns_affine and threePoint_affine need a > 0; the oracle uses positive integer maps and exact powers of two, and limits a, b so that 2 a max|x| + |b| < 2^52 (otherwise a falls back to 1 and, if still too large, b to 0: the mapped samples stay exactly representable integers)",
     ]
     RULE = ("case = integer signal (+ NaN positions / refinement seed / affine map); correspondence on find_turns (model scan, "
             "model numpy transcription, implementation) incl. NaN re-indexing, and - for every signal over {0,1,2,NaN} up to length 5 (thorough 7), "
